@@ -15,8 +15,11 @@ def _result(job, props, obligations):
 
 
 def _native(script, repo, *args, timeout=600):
-    p = subprocess.run(["/venv/bin/python", os.path.join(VERIF, "replay", script), *args], capture_output=True, text=True, timeout=timeout,
-                       env={**os.environ, "PYTHONPATH": repo})
+    try:
+        p = subprocess.run(["/venv/bin/python", os.path.join(VERIF, "replay", script), *args], capture_output=True, text=True, timeout=timeout,
+                           env={**os.environ, "PYTHONPATH": repo})
+    except subprocess.TimeoutExpired:
+        return {"error": f"{script} {' '.join(args)} did not finish within {timeout}s"}
     try:
         return json.loads(p.stdout.strip().splitlines()[-1])
     except Exception:
